@@ -103,7 +103,7 @@ func genProgram(r *rng, p genParams) *Prog {
 	disabled := map[string]bool{}
 	var allowedKinds []int
 	if p.Swarm {
-		for _, op := range []string{"setfield", "alias", "typedef", "moduleasm", "setasm", "setchars", "attrgroup", "global", "setname", "setop", "setinc", "setgep", "addparam", "setaliasee", "settype", "remove", "md", "insert", "moveblock", "uselist", "detach", "reattach", "mdid"} {
+		for _, op := range []string{"setfield", "alias", "typedef", "moduleasm", "setasm", "setchars", "attrgroup", "global", "setname", "setop", "setinc", "setgep", "addparam", "setaliasee", "settype", "remove", "md", "insert", "moveblock", "uselist", "detach", "reattach", "mdid", "phiph"} {
 			if r.chance(1, 2) {
 				disabled[op] = true
 			}
@@ -189,6 +189,14 @@ func genProgram(r *rng, p genParams) *Prog {
 	for len(pr.Steps) < p.Steps {
 		switch x := r.intn(100); {
 		case x < 1:
+			if p.IllFormed && r.chance(1, 3) {
+				add(Step{Op: "phiph", K: 0, A: sel(), B: sel(), Name: name()})
+				break
+			}
+			if p.IllFormed && r.chance(1, 3) {
+				add(Step{Op: "phiph", K: 1})
+				break
+			}
 			add(Step{Op: "setfield", K: r.intn(6), A: sel(), B: sel()})
 		case x < 3:
 			switch r.intn(6) {
@@ -263,6 +271,20 @@ func genProgram(r *rng, p genParams) *Prog {
 			}
 		}
 	}
+	if p.Metadata && r.chance(1, 6) {
+		// A burst of attachments on ONE function (or global variable): two
+		// definitions, a long list of attachments of tied kinds, then more
+		// attachments one by one — with whatever the observers do in between.
+		fsel, tgt := sel(), []int{3, 8, 13, 18}[r.intn(4)]
+		pr.Steps = append(pr.Steps, Step{Op: "md", K: 0, A: sel(), B: sel()}, Step{Op: "md", K: 1, A: sel(), B: sel()})
+		pr.Steps = append(pr.Steps, Step{Op: "md", K: 2, A: sel(), B: fsel, C: 2 * r.intn(8), D: tgt})
+		for i, n := 0, 2+r.intn(4); i < n; i++ {
+			pr.Steps = append(pr.Steps, Step{Op: "md", K: 2, A: sel(), B: fsel, C: 1 + 2*r.intn(8), D: tgt})
+			if r.chance(1, 4) {
+				pr.Steps = append(pr.Steps, Step{Op: "inst", K: instKind(), A: fsel, B: sel(), C: sel(), D: sel(), Name: name()})
+			}
+		}
+	}
 	if p.Burst && r.chance(1, 3) {
 		// A burst around ONE identified struct type: make sure there is one, build
 		// things whose type contains it (an array over it, a typedef, an alloca),
@@ -332,10 +354,11 @@ type machine struct {
 	stepNo  int
 	probes  map[string]int64
 	// printedOnce is set by print observers; used for probes only.
-	printedOnce bool
-	illFormed   bool
-	literal     bool
-	richConsts  bool
+	printedOnce  bool
+	illFormed    bool
+	placeholders []placeholder
+	literal      bool
+	richConsts   bool
 	// viaBlock is set while an "inst" step that asked for it builds its
 	// instruction: the Block.New* method appends by itself (viaUsed).
 	viaBlock *ir.Block
@@ -1102,6 +1125,19 @@ func (mc *machine) exec1(s Step) bool {
 				g = mc.m.NewGlobalDef(name, mc.funcs[s.A%len(mc.funcs)].f)
 			}
 		case 4:
+			if s.A%4 == 3 {
+				// a blob: more than a kilobyte, a third of it bytes that are printed
+				// as escapes, held in a slice with room behind its length (what a
+				// reader that grows its buffer geometrically leaves)
+				n := 1100 + s.A%300
+				blob := make([]byte, n, n+2048)
+				for i := range blob {
+					blob[i] = "ab\x00c\x01\"d\\e\xff"[(i+s.A)%10]
+				}
+				g = mc.m.NewGlobalDef(name, constant.NewCharArray(blob))
+				mc.probes["character array of more than 1 KiB with spare capacity"]++
+				break
+			}
 			g = mc.m.NewGlobalDef(name, constant.NewCharArrayFromString(fmt.Sprintf("s%d\x00", s.A%9)))
 			g.Immutable = true
 		case 5:
@@ -1711,7 +1747,7 @@ func (mc *machine) exec1(s Step) bool {
 		var phis []*ir.InstPhi
 		for _, b := range f.f.Blocks {
 			for _, in := range b.Insts {
-				if p, ok := in.(*ir.InstPhi); ok {
+				if p, ok := in.(*ir.InstPhi); ok && len(p.Incs) > 0 {
 					phis = append(phis, p)
 				}
 			}
@@ -1893,6 +1929,32 @@ func (mc *machine) exec1(s Step) bool {
 			mc.probes["operand replaced through Operands() after a print"]++
 		}
 		return true
+	case "phiph":
+		// A phi put in front of a block as an empty literal (its incoming values
+		// are not known yet; nothing can print the function until it is completed),
+		// or the oldest such placeholder completed.
+		if s.K%2 == 1 {
+			for i, ph := range mc.placeholders {
+				if len(ph.phi.Incs) == 0 {
+					mc.completePlaceholder(ph)
+					mc.placeholders = append(mc.placeholders[:i:i], mc.placeholders[i+1:]...)
+					mc.probes["placeholder phi completed"]++
+					return true
+				}
+			}
+			return false
+		}
+		f := mc.fn(s.A)
+		b := mc.block(f, s.B)
+		if b == nil || !mc.illFormed || len(mc.placeholders) >= 2 {
+			return false
+		}
+		ph := &ir.InstPhi{}
+		ph.SetName(s.Name)
+		b.Insts = append([]ir.Instruction{ph}, b.Insts...)
+		mc.placeholders = append(mc.placeholders, placeholder{ph, f.f})
+		mc.probes["placeholder phi (empty literal) put in front of a block"]++
+		return true
 	case "remove":
 		f := mc.fn(s.A)
 		b := mc.block(f, s.B)
@@ -1982,7 +2044,7 @@ func (mc *machine) exec1(s Step) bool {
 			}
 			field.Set(reflect.Append(field, reflect.ValueOf(att)))
 			mc.probes["metadata attached"]++
-			if s.C%7 == 6 && field.Len() < 40 {
+			if (s.C%7 == 6 || (s.D%5 == 3 && s.C%2 == 0)) && field.Len() < 40 {
 				// A long list of attachments on one entity (a vtable has a !type
 				// attachment per base class): many of one kind, kinds not grouped,
 				// every one with a node of its own.
@@ -2070,11 +2132,25 @@ func (mc *machine) renameProbe(wasUnnamed, becomesUnnamed bool) {
 }
 
 // finalize gives every block a terminator so that the module can be printed.
+type placeholder struct {
+	phi *ir.InstPhi
+	f   *ir.Func
+}
+
+func (mc *machine) completePlaceholder(ph placeholder) {
+	if len(ph.phi.Incs) == 0 && len(ph.f.Blocks) > 0 {
+		ph.phi.Incs = []*ir.Incoming{ir.NewIncoming(constant.NewInt(tI32, 7), ph.f.Blocks[0])}
+	}
+}
+
 func (mc *machine) finalize() {
 	for _, d := range mc.limbo {
 		mc.reattach(d, 0)
 	}
 	mc.limbo = nil
+	for _, ph := range mc.placeholders {
+		mc.completePlaceholder(ph)
+	}
 	for _, f := range mc.funcs {
 		for _, b := range f.f.Blocks {
 			if b.Term == nil {
@@ -2086,7 +2162,26 @@ func (mc *machine) finalize() {
 
 func funcPrintable(f *ir.Func) bool {
 	for _, b := range f.Blocks {
-		if b.Term == nil {
+		if !blockPrintable(b) {
+			return false
+		}
+	}
+	return true
+}
+
+// isPlaceholder: a phi written as an empty literal, to be completed later (its
+// type cannot be asked for yet).
+func isPlaceholder(in ir.Instruction) bool {
+	p, ok := in.(*ir.InstPhi)
+	return ok && len(p.Incs) == 0
+}
+
+func blockPrintable(b *ir.Block) bool {
+	if b.Term == nil {
+		return false
+	}
+	for _, in := range b.Insts {
+		if isPlaceholder(in) {
 			return false
 		}
 	}
@@ -2186,11 +2281,11 @@ func (mc *machine) observe(o Obs) (applied bool, bad string) {
 	case 3:
 		f := mc.fn(o.A)
 		b := mc.block(f, o.B)
-		if b != nil && b.Term == nil && o.C%3 == 0 {
+		if b != nil && !blockPrintable(b) && o.C%3 == 0 {
 			mc.failingPrint("b.LLString", func() { _ = b.LLString() })
 			return true, ""
 		}
-		if b == nil || b.Term == nil {
+		if b == nil || !blockPrintable(b) {
 			return false, ""
 		}
 		return true, twice("b.LLString()", func() string { return b.LLString() })
@@ -2201,6 +2296,9 @@ func (mc *machine) observe(o Obs) (applied bool, bad string) {
 			return false, ""
 		}
 		in := b.Insts[o.C%len(b.Insts)]
+		if isPlaceholder(in) {
+			return false, ""
+		}
 		switch o.K % len(obsNames) {
 		case 4:
 			return true, twice("inst.LLString()", func() string { return in.LLString() })
